@@ -28,7 +28,8 @@ import (
 
 var c12Tokens = []string{"a", "&", "=", "#", "+", "%", "%26", " ", "\"", "'", "<", ";", "?", "/", "é", "\U0001F600", "\r\n", "&SAMLRequest=x", "&SigAlg=x", "%zz", "\t"}
 
-var c12Endpoints = []struct{ name, suffix string }{{"plain", ""}, {"q1", "?a=b"}, {"q2", "?a=b&c=d%26e"}, {"trailing-q", "?"}}
+// "resploc": the IdP's logout endpoints also advertise a ResponseLocation (where logout RESPONSES may be sent); requests still go to Location
+var c12Endpoints = []struct{ name, suffix string }{{"plain", ""}, {"q1", "?a=b"}, {"q2", "?a=b&c=d%26e"}, {"trailing-q", "?"}, {"resploc", ""}}
 
 var c12Messages = []string{"authn-redirect", "authn-post", "logoutreq-redirect", "logoutreq-post", "logoutresp-redirect", "logoutresp-post"}
 
@@ -88,8 +89,21 @@ func c12SP(cf c12Cfg) (*saml.ServiceProvider, string, string) {
 	if cf.reqCtx {
 		sp.RequestedAuthnContext = &saml.RequestedAuthnContext{Comparison: "exact", AuthnContextClassRef: "urn:oasis:names:tc:SAML:2.0:ac:classes:PasswordProtectedTransport"}
 	}
+	if c12Endpoints[cf.endpoint].name == "resploc" {
+		for i := range sp.IDPMetadata.IDPSSODescriptors {
+			d := &sp.IDPMetadata.IDPSSODescriptors[i]
+			for j := range d.SingleLogoutServices {
+				d.SingleLogoutServices[j].ResponseLocation = c12RespLoc
+			}
+			for j := range d.SingleSignOnServices {
+				d.SingleSignOnServices[j].ResponseLocation = c12RespLoc
+			}
+		}
+	}
 	return sp, sso, slo
 }
+
+const c12RespLoc = "https://idp.example.com/saml/slo-return"
 
 func init() {
 	Register(&Check{
@@ -347,7 +361,7 @@ func c12One(t *core.T, getSP func(c12Cfg) (*saml.ServiceProvider, string, string
 		if f.NForms != 1 || len(f.Dup) > 0 {
 			t.Fail(fk("form-structure"), "%d forms, duplicated fields %v", f.NForms, f.Dup)
 		}
-		if f.Action != endpoint {
+		if f.Action != endpoint && !(kind == "logoutresp" && c12Endpoints[cf.endpoint].name == "resploc" && f.Action == c12RespLoc) {
 			t.Fail(fk("form-action"), "form action %q, endpoint %q", f.Action, endpoint)
 		}
 		// a browser normalises newlines in form values (HTML tokenizer: CRLF/CR -> LF; form submission: -> CRLF), which the
@@ -385,7 +399,7 @@ func c12One(t *core.T, getSP func(c12Cfg) (*saml.ServiceProvider, string, string
 	if got := textOf(one(r, samlgen.NSAssertion, "Issuer")); got != wantIssuer {
 		t.Fail(fk("issuer"), "Issuer %q, configured %q", got, wantIssuer)
 	}
-	if got := r.SelectAttrValue("Destination", ""); got != endpoint {
+	if got := r.SelectAttrValue("Destination", ""); got != endpoint && !(kind == "logoutresp" && c12Endpoints[cf.endpoint].name == "resploc" && got == c12RespLoc) {
 		t.Fail(fk("destination"), "Destination %q, endpoint %q", got, endpoint)
 	}
 	id := r.SelectAttrValue("ID", "")
